@@ -2397,6 +2397,198 @@ def r8(ctx: RuleCtx) -> None:
                           'also changes the arguments of the other languages (and the caller\'s list)', st)
 
 
+# ---------------------------------------------------------------------------
+# R4d  `meson --internal <script> ...`: the script receives the process argv unmodified
+
+MESONMAIN = 'mesonbuild/mesonmain.py'
+
+
+def _resolve_repo_func(ctx: RuleCtx, mod: Module, call: ast.Call) -> T.Optional[ast.AST]:
+    cn = call_name(call) or ''
+    last = cn.split('.')[-1]
+    if '.' not in cn and mod.has_func(cn):
+        return mod.func(cn)
+    imps = mod.imports()
+    head = cn.split('.')[0]
+    cands = []
+    if head in imps:
+        m2 = ctx.repo.module_by_dotted(imps[head]) if '.' in cn else None
+        if m2 is not None:
+            cands.append(m2)
+    if ctx.repo.exists(UNIVERSAL):
+        cands.append(ctx.repo.module(UNIVERSAL))
+    for m2 in cands:
+        if m2.has_func(last):
+            return m2.func(last)
+    return None
+
+
+def _passes_through(fn: ast.AST) -> T.Optional[int]:
+    """Index of the parameter that every `return` of fn returns unchanged (None: the function builds its result)."""
+    ps = [a.arg for a in fn.args.posonlyargs + fn.args.args if a.arg not in ('self', 'cls')]   # type: ignore[attr-defined]
+    rets = [st for st in walk_no_nested(fn) if isinstance(st, ast.Return)]
+    stored = {n.id for n in walk_no_nested(fn) if isinstance(n, ast.Name) and isinstance(n.ctx, ast.Store)}
+    idx = set()
+    for r in rets:
+        v = _uncopy(r.value) if r.value is not None else None
+        if isinstance(v, ast.Name) and v.id in ps and v.id not in stored:
+            idx.add(ps.index(v.id))
+        else:
+            return None
+    return next(iter(idx)) if len(idx) == 1 else None
+
+
+def r4d(ctx: RuleCtx) -> None:
+    mod = ctx.repo.module(MESONMAIN)
+    qn = 'run'
+    fn = _nfunc(mod, qn)
+    fl = OFlow(fn)
+    p0 = fn.args.args[0].arg
+    calls = [c for c in walk_no_nested(fn) if isinstance(c, ast.Call) and call_name(c) == 'run_script_command']
+    if not calls:
+        raise Undecided(f'{MESONMAIN}:{qn}: no call of run_script_command (internal scripts are dispatched differently)')
+
+    def root(e: ast.AST, depth: int = 0) -> T.Tuple[str, ast.AST]:
+        """('param', e) when e denotes (a copy / tail slice of) the argv parameter, ('call', c) for the repository call that rebuilt it,
+        ('?', e) otherwise."""
+        e = _uncopy(e)
+        if isinstance(e, ast.Subscript) and isinstance(e.slice, ast.Slice):
+            return root(e.value, depth)
+        if isinstance(e, ast.Name):
+            if e.id == p0 and p0 not in fl.defs:
+                return 'param', e
+            ds = fl.defs.get(e.id, [])
+            if len(ds) == 1 and depth < 6 and isinstance(ds[0], ast.AST):
+                return root(ds[0], depth + 1)
+            return '?', e
+        if isinstance(e, ast.Call):
+            h = _resolve_repo_func(ctx, mod, e)
+            if h is None:
+                return '?', e
+            k = _passes_through(h)
+            if k is not None and k < len(e.args):
+                return root(e.args[k], depth + 1)
+            return 'call', e
+        return '?', e
+    for c in calls:
+        a = c.args[1] if len(c.args) > 1 else kwarg(c, 'script_args')
+        if a is None:
+            raise Undecided(f'{qn}: call form {short(c)}')
+        kind, what = root(a)
+        if kind == '?':
+            raise Undecided(f'{qn}: cannot trace the script arguments {short(a)} back to the process argv (stops at {short(what)})')
+        ctx.require(kind == 'param', f'{qn}: internal scripts receive a tail of the process argv `{p0}` itself ({short(a)})', mod, qn, f'run_script_command(..., {norm(a)}) <- {norm(what)}',
+                    f'the arguments of `meson --internal <script>` ({short(a)}) are rebuilt by {short(what, 70)} before the script sees them: the command line that '
+                    '`meson --internal exe -- <user command>` has to execute is no longer the one the backend wrote (e.g. `@file` words of the user command get expanded)', c)
+
+
+# ---------------------------------------------------------------------------
+# R8b  results that the interpreter keeps in a container are owned: a helper must not hand back its own argument list
+
+def r8b(ctx: RuleCtx) -> None:
+    mod = ctx.repo.module(INTERP)
+    cls = 'Interpreter'
+    meths = mod.methods(cls)
+
+    def ret_positions(h: ast.AST) -> T.Optional[T.List[T.List[ast.AST]]]:
+        """Per return statement: the list of returned elements (a tuple display is split)."""
+        out = []
+        for st in walk_no_nested(h):
+            if isinstance(st, ast.Return) and st.value is not None:
+                out.append(list(st.value.elts) if isinstance(st.value, ast.Tuple) else [st.value])
+        return out or None
+
+    def alias_of_param(e: ast.AST, h: ast.AST) -> T.Optional[str]:
+        ps = {a.arg for a in h.args.args if a.arg != 'self'}      # type: ignore[attr-defined]
+        stored = {n.id for n in walk_no_nested(h) if isinstance(n, ast.Name) and isinstance(n.ctx, ast.Store)}
+        while isinstance(e, ast.Call) and call_name(e) in ('T.cast', 'cast', 'typing.cast') and len(e.args) == 2:
+            e = e.args[1]
+        return e.id if isinstance(e, ast.Name) and e.id in ps and e.id not in stored else None
+    n = 0
+    for q, f in meths.items():
+        bound: T.Dict[str, T.Tuple[str, int]] = {}
+        for st in walk_no_nested(f):
+            if isinstance(st, ast.Assign) and len(st.targets) == 1 and isinstance(st.value, ast.Call) and isinstance(st.value.func, ast.Attribute) \
+                    and isinstance(st.value.func.value, ast.Name) and st.value.func.value.id == 'self':
+                hn = st.value.func.attr
+                hn = hn if hn in meths else (hn if not hn.startswith('__') else hn)
+                t = st.targets[0]
+                if isinstance(t, ast.Tuple) and all(isinstance(x, ast.Name) for x in t.elts):
+                    for k, x in enumerate(t.elts):
+                        bound[x.id] = (hn, k)
+                elif isinstance(t, ast.Name):
+                    bound[t.id] = (hn, -1)
+        if not bound:
+            continue
+        for st in walk_no_nested(f):
+            if isinstance(st, ast.Assign) and len(st.targets) == 1 and isinstance(st.targets[0], ast.Subscript) and isinstance(st.value, ast.Name) and st.value.id in bound:
+                hn, k = bound[st.value.id]
+                h = meths.get(hn)
+                if h is None:
+                    continue
+                rp = ret_positions(h)
+                if rp is None or any((k >= len(r_)) or (k == -1 and len(r_) != 1) for r_ in rp):
+                    continue
+                elems = [r_[k if k >= 0 else 0] for r_ in rp]
+                owners = [e for e in elems if isinstance(_uncopy(e), (ast.List, ast.ListComp)) or (isinstance(e, ast.Name) and any(
+                    isinstance(d, (ast.Assign, ast.AnnAssign)) and d.value is not None and isinstance(d.value, (ast.List, ast.ListComp)) and
+                    norm(d.targets[0] if isinstance(d, ast.Assign) else d.target) == e.id for d in walk_no_nested(h)))]
+                if not owners:
+                    continue            # not a list-building helper
+                n += 1
+                leaks = [(e, alias_of_param(e, h)) for e in elems if alias_of_param(e, h)]
+                ctx.require(not leaks, f'{cls}.{q}: `{short(st, 50)}` keeps a list that {hn} always allocates', mod, f'{cls}.{hn}',
+                            f'return {", ".join(norm(e) for e, _ in leaks)} kept by {q}: {norm(st)}',
+                            f'{hn} returns a newly built list on some paths but hands back its own parameter `{leaks[0][1] if leaks else ""}` on another, and {q} keeps the result '
+                            f'(`{short(st, 50)}`): later in-place additions (extend/append of per-library arguments) then modify the caller\'s list, which is shared '
+                            'between the targets built from the same keyword arguments', st)
+    if n == 0:
+        raise Undecided(f'{cls}: no list-building helper whose result is kept in a container found')
+
+
+# ---------------------------------------------------------------------------
+# R5d  generator @OUTPUTn@ substitution loop: what is replaced is the text that was matched (progress of the re-search loop)
+
+def r5d(ctx: RuleCtx) -> None:
+    mod = ctx.repo.module(BACKENDS)
+    qn = 'Backend.replace_outputs'
+    fn = mod.func(qn)
+    loops = []
+    for w in walk_no_nested(fn):
+        if not isinstance(w, ast.While):
+            continue
+        names = {x.id for x in ast.walk(w.test) if isinstance(x, ast.Name)}
+        research = [st for st in ast.walk(w) if isinstance(st, ast.Assign) and len(st.targets) == 1 and isinstance(st.targets[0], ast.Name) and st.targets[0].id in names
+                    and isinstance(st.value, ast.Call) and isinstance(st.value.func, ast.Attribute) and st.value.func.attr in ('search', 'match')]
+        if research:
+            loops.append((w, research[0].targets[0].id, research[0].value.args[0] if research[0].value.args else None))
+    if not loops:
+        raise Undecided(f'{qn}: no `while <match>:` re-search loop (the substitution is written differently)')
+    for w, m, subject in loops:
+        if not isinstance(subject, ast.Name):
+            raise Undecided(f'{qn}: the loop re-searches {short(subject)}')
+        reps = [st.value for st in ast.walk(w) if isinstance(st, ast.Assign) and len(st.targets) == 1 and norm(st.targets[0]) == subject.id
+                and isinstance(st.value, ast.Call) and isinstance(st.value.func, ast.Attribute) and st.value.func.attr == 'replace' and norm(st.value.func.value) == subject.id]
+        if len(reps) != 1 or len(reps[0].args) < 2:
+            raise Undecided(f'{qn}: the loop body rewrites {subject.id} in {len(reps)} places')
+        old_e = reps[0].args[0]
+        local = {st.targets[0].id: st.value for st in ast.walk(w) if isinstance(st, ast.Assign) and len(st.targets) == 1 and isinstance(st.targets[0], ast.Name)}
+        for _ in range(3):
+            if isinstance(old_e, ast.Name) and old_e.id in local:
+                old_e = local[old_e.id]
+        matched = norm(old_e) in (f'{m}.group(0)', f'{m}.group()', f'{m}[0]')
+        if matched:
+            ctx.ok(f'{qn}: the loop replaces the matched text {norm(old_e)}: every iteration removes the match it found')
+            continue
+        rebuilt = isinstance(old_e, ast.JoinedStr) and any(isinstance(c, ast.Call) and call_name(c) == 'int' for c in ast.walk(w))
+        if not rebuilt:
+            raise Undecided(f'{qn}: the text replaced in the loop is `{short(old_e)}`, a form the rule does not understand')
+        ctx.violation(mod, qn, f'while {norm(w.test)}: {subject.id}.replace({norm(old_e)}, ...)',
+                      f'the loop searches {subject.id} for a placeholder but replaces `{short(old_e)}`, a text rebuilt from the *number* parsed out of the match, not the matched '
+                      f'text {m}.group(0): for a spelling such as `@OUTPUT01@` the rebuilt `@OUTPUT1@` does not occur, nothing is replaced and the loop never ends '
+                      '(witness: generator argument `x@OUTPUT01@` -> `meson setup` hangs in replace_outputs)', reps[0])
+
+
 RULES = [
     Rule('C03.R1a', 'build statements: every value passes ninja_quote (and qf unless raw / &&)', r1a),
     Rule('C03.R1b', 'rules: command/args only through _quoter; _quoter table; shell vs rsp quoter', r1b),
@@ -2413,5 +2605,8 @@ RULES = [
     Rule('C03.R7', 'exe-wrapper response file: name digest is taken over the text written', r7),
     Rule('C03.R5c', 'generator(): user extra_args are spliced after every string rewrite of the argument list', r5c),
     Rule('C03.R8', 'per-language argument stores: no shared list object that is modified in place', r8),
+    Rule('C03.R4d', 'meson --internal <script>: the script arguments are a tail of the process argv itself', r4d),
+    Rule('C03.R8b', 'lists kept by the interpreter are owned: helpers do not hand back their argument list', r8b),
+    Rule('C03.R5d', 'generator @OUTPUTn@ loop replaces the text it matched (terminates for every spelling)', r5d),
     Rule('C03.R6', 'newline in an argument forces the pickled wrapper with the unmodified serialisation', r6),
 ]
